@@ -170,9 +170,13 @@ class Term(ItemSequenceT[T]):
                     return tuple(_filter_items(((elem1, exp1),
                                                 (elem2, exp2))))
                 else:
+                    # elements having the same sort key (i.e. elements of
+                    # the same kind which can't be converted to each other)
+                    # are ordered by their string representation
                     items = sorted(((elem1, exp1), (elem2, exp2)),
                                    key=lambda item:
-                                   self.norm_sort_key(item[0]))
+                                   (self.norm_sort_key(item[0]),
+                                    str(item[0])))
                     return tuple(_filter_items(items))
             # third most relevant case: non-numeric + numeric element
             if isinstance(elem2, Rational) and \
@@ -229,6 +233,11 @@ class Term(ItemSequenceT[T]):
                     if not done:
                         accum_items.append(item)
                 accum_items = [item for item in accum_items if item[1] != 0]
+                if not keep_item_order:
+                    # elements having the same sort key (i.e. elements of
+                    # the same kind which can't be converted to each other)
+                    # are ordered by their string representation
+                    accum_items.sort(key=lambda item: str(item[0]))
                 res_items.extend(accum_items)
             else:  # numerical elements
                 group_it = cast(Iterator[Tuple[int, Tuple[Rational, int]]],
